@@ -15,22 +15,21 @@ value of the integer type — and every string.  No bound anywhere.
 -/
 namespace ShootVerif.Enum
 
-/-- the stringer-style loop of makeStr — over every const declaration of the package, those inside
-    function bodies included — collects exactly the declared (package-level) constants of T, for
-    every input of the syntactic grammar: no spec gets type T through a typed expression; a type
-    that is not a plain identifier (`pkg.T`, `(T)`) is not T and is not followed by an empty spec;
-    no const declaration inside a function names T -/
-theorem C04_collect (i : Input) (h : grammarOK i = true) : collect i.T i.allBlocks = i.decl :=
+/-- the stringer-style loop of makeStr over the package-level const declarations collects exactly
+    the declared constants of T, for every input of the syntactic grammar (no spec gets type T through
+    a typed expression `X = T(5)`).  Specs typed `pkg.T` (reset) or `(T)` (a T) and const declarations
+    inside function bodies (not walked) are ordinary members of that grammar since /repo 17b8707 / b44c047. -/
+theorem C04_collect (i : Input) (h : grammarOK i = true) : collect i.T i.blocks = i.decl :=
   collect_of_grammarOK h
 
 /-- on WF — negative values and values above MaxInt64 included — the run emits the table the
     specification describes, and the emitted map literals / table references compile -/
 theorem C04_generates (i : Input) (h : WF i = true) :
-    gen i.kind i.T i.allBlocks = .file (specSorted i.decl) ∧
+    gen i.kind i.T i.blocks = .file (specSorted i.decl) ∧
     compiles false i.T i.decl (specSorted i.decl) = true := by
   have f := WF.facts h
   have hp : (specSorted i.decl).Perm i.decl := sortBy_perm _ _
-  have ht : sortC i.kind (collect i.T i.allBlocks) = specSorted i.decl := tables_eq h
+  have ht : sortC i.kind (collect i.T i.blocks) = specSorted i.decl := tables_eq h
   constructor
   · unfold gen
     simp only [ht]
@@ -232,63 +231,40 @@ theorem C04_state_per_type :
     Facts.genStateWrites.contains ("internal/enumer", "MakeData", "data", "set") = true := by
   decide
 
-/-! ### finding regions: concrete packages inside the property's quantifier on which the model (and the
-code) differs from the specification -/
+/-! ### the former finding regions F_local_const / F_nonident_type (repaired in /repo 17b8707, b44c047):
+the same packages are in WF now and the statements hold on them -/
+
+/-- the tables do not depend on the const declarations inside function bodies, whatever they are -/
+theorem C04_local_const_fixed (i : Input) (ls : List (List VSpec)) :
+    tables { i with locals := ls } = tables i := rfl
 
 /-- `type Color int; const ( Red Color = iota + 1; Green ); func f() { const tmp Color = 7 }` -/
-def localWitness : Input :=
+def localExample : Input :=
   { T := cColor, kind := ⟨true, 64⟩,
     blocks := [[{ names := [cRed], ty := some cColor, hasVals := true, exprTy := none, vals := [1] },
                 { names := [cGreen], ty := none, hasVals := false, exprTy := none, vals := [2] }]],
     locals := [[{ names := [['t', 'm', 'p']], ty := some cColor, hasVals := true, exprTy := none, vals := [7] }]] }
 
-/-- the function-local constant lands in the tables; it is not a constant of the package: the
-    emitted file does not compile, while the declaration has exactly two constants -/
-theorem C04_F_local_const_witness :
-    F_local_const localWitness = true ∧ valuesT (tables localWitness) = [1, 2, 7] ∧
-    specValues localWitness.decl = [1, 2] ∧
-    compiles false localWitness.T localWitness.decl (tables localWitness) = false := by decide
+example : grammarOK localExample = true ∧ WF localExample = true ∧ valuesT (tables localExample) = [1, 2] ∧
+    compiles false localExample.T localExample.decl (tables localExample) = true := by decide
 
 def cWait : Name := ['W', 'a', 'i', 't']
 def cLater : Name := ['L', 'a', 't', 'e', 'r']
 def cDuration : Name := ['t', 'i', 'm', 'e', '.', 'D', 'u', 'r', 'a', 't', 'i', 'o', 'n']
 
-/-- `const ( Red Color = iota + 1; Wait time.Duration = 5; Later )` -/
-def nonIdentWitness : Input :=
+/-- `const ( Red Color = iota + 1; Wait time.Duration = 5; Later; X (Color) = 7 )`: `Later` repeats
+    the time.Duration spec and is not collected; `X`, spelled with parentheses, is a Color and is -/
+def nonIdentExample : Input :=
   { T := cColor, kind := ⟨true, 64⟩,
     blocks := [[{ names := [cRed], ty := some cColor, hasVals := true, exprTy := none, vals := [1] },
-                { names := [cWait], ty := some cDuration, hasVals := true, exprTy := none, vals := [5], tyIdent := false },
-                { names := [cLater], ty := none, hasVals := false, exprTy := none, vals := [5] }]] }
+                { names := [cWait], ty := some cDuration, hasVals := true, exprTy := none, vals := [5] },
+                { names := [cLater], ty := none, hasVals := false, exprTy := none, vals := [5] },
+                { names := [['X']], ty := some cColor, hasVals := true, exprTy := none, vals := [7] }]] }
 
-/-- `Later` (a time.Duration by the Go rule) is collected as a Color: the output does not compile -/
-theorem C04_F_nonident_type_witness :
-    F_nonident_type nonIdentWitness = true ∧ valuesT (tables nonIdentWitness) = [1, 5] ∧
-    specValues nonIdentWitness.decl = [1] ∧
-    compiles false nonIdentWitness.T nonIdentWitness.decl (tables nonIdentWitness) = false := by decide
-
-/-- `const ( Red Color = 1; X (Color) = 7 )`: X is a Color, the tables do not have it (and compile) -/
-def parenWitness : Input :=
-  { T := cColor, kind := ⟨true, 64⟩,
-    blocks := [[{ names := [cRed], ty := some cColor, hasVals := true, exprTy := none, vals := [1] },
-                { names := [['X']], ty := some cColor, hasVals := true, exprTy := none, vals := [7], tyIdent := false }]] }
-
-theorem C04_F_nonident_paren_witness :
-    F_nonident_type parenWitness = true ∧ valuesT (tables parenWitness) = [1] ∧
-    specValues parenWitness.decl = [1, 7] ∧
-    isValid parenWitness.T (tables parenWitness) 7 = false ∧ specValid parenWitness.decl 7 = true := by decide
-
-/-- the same constructs where they do no harm are inside the grammar of `C04_collect`:
-    `const ( Red Color = 1; Wait time.Duration = 5; Green Color = 2 ); func f() { const ( k = 3; m ) }` -/
-def harmlessExample : Input :=
-  { T := cColor, kind := ⟨true, 64⟩,
-    blocks := [[{ names := [cRed], ty := some cColor, hasVals := true, exprTy := none, vals := [1] },
-                { names := [cWait], ty := some cDuration, hasVals := true, exprTy := none, vals := [5], tyIdent := false },
-                { names := [cGreen], ty := some cColor, hasVals := true, exprTy := none, vals := [2] }]],
-    locals := [[{ names := [['k']], ty := none, hasVals := true, exprTy := none, vals := [3] },
-                { names := [['m']], ty := none, hasVals := false, exprTy := none, vals := [3] }]] }
-
-example : grammarOK harmlessExample = true ∧ WF harmlessExample = true ∧
-    valuesT (tables harmlessExample) = [1, 2] := by decide
+/-- a spec with a qualified type resets what is remembered: the empty spec after it is not taken for a T -/
+theorem C04_nonident_type_fixed :
+    grammarOK nonIdentExample = true ∧ WF nonIdentExample = true ∧ valuesT (tables nonIdentExample) = [1, 7] ∧
+    specValues nonIdentExample.decl = [1, 7] ∧ isValid nonIdentExample.T (tables nonIdentExample) 7 = true := by decide
 
 /-! ### non-vacuity: a concrete declaration in WF using carry-down, a placeholder, a reset by an
 untyped constant, two blocks and a prefix that is trimmed -/
